@@ -235,6 +235,41 @@ func sweepCached(p *Program, keys []string, timeout int) *SweepResult {
 		workers = (n + 1) / 2
 	}
 	rs, _ := runSweepSharded(p, keys, timeout, workers)
+	// second chance: what the loaded workers left undecided ("unknown") is tried again here, alone on
+	// the machine, with three times the timeout and another seed (refuted obligations stay refuted)
+	var again []*Obligation
+	for _, r := range rs {
+		if r == nil {
+			continue
+		}
+		for _, o := range r.Obls {
+			if o.Canary || o.Auto || o.Status == "proved" || o.Status == "refuted" || o.File == "" {
+				continue
+			}
+			if _, err := os.Stat(o.File); err != nil {
+				continue
+			}
+			if o.FileF != "" {
+				if _, err := os.Stat(o.FileF); err != nil {
+					o.FileF = ""
+				}
+			}
+			again = append(again, o)
+		}
+	}
+	if len(again) > 0 && len(again) <= 400 {
+		d := &Discharger{TimeoutS: timeout * 3, Seed: 2, Par: runtime.NumCPU() / 2, Retry: false}
+		solveAll(again, d)
+		for _, o := range again {
+			o.Output = trunc(o.Output, 1500)
+			if o.Status == "proved" {
+				os.Remove(o.File)
+				if o.FileF != "" {
+					os.Remove(o.FileF)
+				}
+			}
+		}
+	}
 	sr := &SweepResult{Digest: dg, TimeoutS: timeout, WallS: time.Since(t0).Seconds(), Workers: workers, Results: rs}
 	// keep only the newest few cache files
 	if old, _ := filepath.Glob(filepath.Join(cdir, "sweep-*.json")); len(old) > 6 {
